@@ -20,6 +20,7 @@ package client
 import (
 	"context"
 
+	"seata.apache.org/seata-go/pkg/protocol/branch"
 	"seata.apache.org/seata-go/pkg/protocol/message"
 	"seata.apache.org/seata-go/pkg/util/log"
 
@@ -52,10 +53,14 @@ func (f *rmBranchRollbackProcessor) Process(ctx context.Context, rpcMessage mess
 	status, err := rm.GetRmCacheInstance().GetResourceManager(request.BranchType).BranchRollback(ctx, branchResource)
 	if err != nil {
 		log.Errorf("branch rollback error: %s", err.Error())
-		return err
+		// no status to report (e.g. the resource is unknown here): nothing can be answered;
+		// otherwise the failure status is reported to the tc server below so that it retries
+		if status == branch.BranchStatusUnknown {
+			return err
+		}
+	} else {
+		log.Infof("branch rollback success: xid %s, branchID %d, resourceID %s, applicationData %s", xid, branchID, resourceID, applicationData)
 	}
-	log.Infof("branch rollback success: xid %s, branchID %d, resourceID %s, applicationData %s", xid, branchID, resourceID, applicationData)
-
 	var (
 		resultCode message.ResultCode
 		errMsg     string
